@@ -7,6 +7,7 @@ package ice
 // withheld or late responses, same-role requests with chosen tie-breakers).
 
 import (
+	"context"
 	"fmt"
 	"net/netip"
 	"strings"
@@ -192,7 +193,29 @@ func vfC03PeerRun(e *vfEnv, r *vfResult, idx int) {
 
 		return
 	}
+	if agentControlling && s.rng.IntN(2) == 0 {
+		// the agent validates pairs and starts nominating; then it loses a role conflict (the peer claims the
+		// controlling role with a larger tie-breaker) and from there on the peer sends plain checks and answers only:
+		// nothing it does nominates a pair, so the agent - now controlled - must not select one on its own
+		s.peerChaos(30+s.rng.IntN(120), peerRole, peerNominates, values)
+		if sn := s.A.snapshot(); sn.Err == nil && sn.Controlling && sn.Selected == "" && s.broken == "" {
+			aSocks := s.aSockets()
+			if len(aSocks) > 0 {
+				m := s.P.build(s.A, vfReqOpts{Role: "controlling", Tie: 1<<64 - 1})
+				s.step("peer-request", "P", 0, "role conflict: ICE-CONTROLLING with the largest tie-breaker")
+				d := s.P.send(s.P.socks[0], aSocks[0], m.Raw)
+				s.deliver(d.ID, false)
+				s.P.tie = 1<<64 - 1
+				if sn2 := s.A.snapshot(); sn2.Err == nil && !sn2.Controlling {
+					s.r.count("c03_peer_runs_with_role_switch_while_nominating", 1)
+					s.peerChaos(40+s.rng.IntN(150), "controlling", false, false)
+				}
+			}
+		}
+		muteFrom = -2 // this run is over
+	}
 	switch muteFrom {
+	case -2:
 	case 0:
 		s.peerMute = true
 		s.peerChaos(40+s.rng.IntN(200), peerRole, peerNominates, values)
@@ -237,6 +260,92 @@ func vfC03PeerRun(e *vfEnv, r *vfResult, idx int) {
 	}
 }
 
+// vfC03RenominateRace: RenominateCandidate called while a role conflict that the agent is about to lose is already
+// queued on its task loop.  The loop is held by a gate task; the conflicting request is handed to the agent's reader
+// (its task queues behind the gate); then RenominateCandidate is called (its task queues behind that); the gate opens.
+// Whatever order the two tasks take, no USE-CANDIDATE may leave the agent while its role is controlled (the role is
+// read at the moment of emission), and a renomination that is refused must not have sent anything.
+func vfC03RenominateRace(e *vfEnv, r *vfResult, idx int) {
+	s := newVfSession(e, r, idx, "c03renomrace")
+	defer s.closeAll()
+	if err := s.setupAgentVsPeer(vfSideCfg{MaxBinding: 1000, TieBreaker: 4242, Renomination: true}, true, 1, 1, true); err != nil {
+		r.inconclusive(1)
+
+		return
+	}
+	if !s.peerConnect() || s.broken != "" {
+		r.inconclusive(1)
+
+		return
+	}
+	s.dropAll()
+	s.P.take()
+	a := s.A.a
+	locs, _ := a.GetLocalCandidates()
+	rems, _ := a.GetRemoteCandidates()
+	if len(locs) == 0 || len(rems) == 0 {
+		r.inconclusive(1)
+
+		return
+	}
+	gate, busy := make(chan struct{}), make(chan struct{})
+	go func() { _ = a.loop.Run(a.loop, func(context.Context) { close(busy); <-gate }) }()
+	<-busy
+	// the conflict: same role, largest tie-breaker; handed to the reader without waiting for its (blocked) processing
+	m := s.P.build(s.A, vfReqOpts{Role: "controlling", Tie: 1<<64 - 1})
+	s.step("peer-request", "P", 0, "role conflict queued behind a held loop")
+	d := s.P.send(s.P.socks[0], s.aSockets()[0], m.Raw)
+	if !s.sw.handOver(d.ID, 2*time.Second) {
+		close(gate)
+		r.inconclusive(1)
+
+		return
+	}
+	queued := false
+	for dl := time.Now().Add(2 * time.Second); time.Now().Before(dl); time.Sleep(50 * time.Microsecond) {
+		for _, g := range strings.Split(vfStacks(), "\n\n") {
+			if strings.Contains(g, "handleInboundSTUNMessage") && strings.Contains(g, "taskloop.(*Loop).Run") {
+				queued = true
+			}
+		}
+		if queued {
+			break
+		}
+	}
+	w0 := s.sw.wireLen()
+	res := make(chan error, 1)
+	go func() { res <- a.RenominateCandidate(locs[0], rems[0]) }()
+	time.Sleep(time.Duration(100+s.rng.IntN(400)) * time.Microsecond)
+	close(gate)
+	var rerr error
+	select {
+	case rerr = <-res:
+	case <-time.After(10 * time.Second):
+		r.violation("renominate-stuck", "RenominateCandidate did not return", map[string]any{"idx": idx, "stacks": vfStacks()})
+
+		return
+	}
+	_ = s.A.awaitReaders()
+	_ = a.loop.Run(a.loop, func(context.Context) {})
+	r.eval(1)
+	sn := s.A.snapshot()
+	emittedUC := 0
+	for _, dg := range s.sw.wireFrom(w0) {
+		if dg.Emitter == "A" && dg.Stun != nil && dg.Stun.Class == "request" && dg.Stun.UseCand {
+			emittedUC++
+		}
+	}
+	wit := map[string]any{"idx": idx, "conflict_queued_first": queued, "renominate_error": fmt.Sprint(rerr), "use_candidate_requests": emittedUC, "controlling_afterwards": sn.Controlling}
+	if rerr != nil && emittedUC > 0 {
+		s.viol("C03", "refused-renomination-sent-use-candidate", fmt.Sprintf("RenominateCandidate returned %v but %d USE-CANDIDATE request(s) were sent", rerr, emittedUC), wit)
+	}
+	s.emittedCheck(0) // USE-CANDIDATE emitted while the role was controlled
+	if queued && sn.Err == nil && !sn.Controlling {
+		r.count("c03_renominate_behind_role_switch", 1)
+	}
+	r.distinct(fmt.Sprintf("renomrace/queued=%v/err=%v", queued, rerr != nil))
+}
+
 func TestVerifC03(t *testing.T) {
 	vfRun(t, "C03", func(e *vfEnv, r *vfResult) {
 		n := e.n(2000, 120000)
@@ -244,9 +353,12 @@ func TestVerifC03(t *testing.T) {
 			if e.only >= 0 && i != e.only {
 				continue
 			}
-			if i%2 == 0 {
+			switch {
+			case i%16 == 9:
+				vfC03RenominateRace(e, r, i)
+			case i%2 == 0:
 				vfC01Run(e, r, i)
-			} else {
+			default:
 				vfC03PeerRun(e, r, i)
 			}
 		}
